@@ -1,5 +1,6 @@
 import SarpyModel.Drivers.Util
 import SarpyModel.Spec.Opener
+import SarpyModel.Spec.OpenerVendor
 /-
   Line protocol for the opener model (C14).
 
@@ -10,6 +11,13 @@ import SarpyModel.Spec.Opener
     opener wsicd <nseg> <extra des>                      -> descriptor written by the SICD writer model
     opener wsidd <segs> <nsicd> <graphics> <extra des>   -> descriptor written by the SIDD writer model
     opener wcphd | wcrsd | wsio                          -> descriptor
+
+    opener vendor <rg><sk><sr><g1><g2><g3><g4> <arg> <kind> <name> <len4> <head> <big> <xml> <probe> <palsar> <dprod> <dman> <dxml> <h5py>
+                  <magic> <imgs> <graphics> <des> <symbols> <labels>
+        -> <vendor>=<D> for each of the 17 openers, then cx= pr= ph= rc= ge= op= (the entry points with every registered opener)
+           D as above, or `D` when the decision depends on the unmodelled remainder of a foreign opener
+        rg sk sr = Policy2 bits, g1..g4 = TabFlags bits (tiffShortUnguarded radarsatParseUncaught tsxDanglingRaises palsarSpecialValueError); arg = path|fileobj; kind = missing|file|dir|special; name = plain|xmlExt|productXml|manifestSafe;
+        head = plain|binary|hdf5|gff|tiffShort|tiffBad|tiff42|tiff43; probe / dxml = none|declOpen|level1; the rest 0|1
 
   tokens: magic = none|nitf21|nitf20|nitfOther|cphd|crsd|sio ; imgs = - | c,o,d<k>,... ;
           des = - | <id>:<body>,...  id = x|os|oc|ot  body = sicd|sidd|oxml|nxml ; D = A:<reader> | R | X
@@ -63,8 +71,53 @@ def showON : Option Nat → String
   | none => "N" | some n => toString n
 def showIdx (l : List Nat) : String := if l.isEmpty then "-" else ".".intercalate (l.map toString)
 
+
+def opParseArg : String → Option Arg
+  | "path" => some .path | "fileobj" => some .fileobj | _ => none
+def opParseKind : String → Option PathKind
+  | "missing" => some .missing | "file" => some .file | "dir" => some .dir | "special" => some .special | _ => none
+def opParseName : String → Option NameKind
+  | "plain" => some .plain | "xmlExt" => some .xmlExt | "productXml" => some .productXml | "manifestSafe" => some .manifestSafe | _ => none
+def opParseHead : String → Option VHead
+  | "plain" => some .plain | "binary" => some .binary | "hdf5" => some .hdf5 | "gff" => some .gff | "tiffShort" => some .tiffShort
+  | "tiffBad" => some .tiffBad | "tiff42" => some .tiff42 | "tiff43" => some .tiff43 | _ => none
+def opParseProbe : String → Option Probe
+  | "none" => some .none | "declOpen" => some .declOpen | "level1" => some .level1 | _ => none
+def opParseBit : String → Option Bool
+  | "0" => some false | "1" => some true | _ => none
+
+def opAllVendors : List (String × Vendor) :=
+  [("capella", .capella), ("csk", .csk), ("gff", .gff), ("iceye", .iceye), ("nisar", .nisar), ("palsar2", .palsar2),
+   ("radarsat", .radarsat), ("sentinel", .sentinel), ("sicd", .sicd), ("sio", .sio), ("tsx", .tsx), ("final", .finalAttempt),
+   ("sidd", .sidd), ("cphd", .cphd), ("crsd", .crsd), ("nitf", .nitf), ("tiff", .tiff)]
+
+/-- a decision that may depend on the opaque remainders: evaluated under three different remainders -/
+def opShowOpaque (f : (Vendor → Decision) → Decision) : String :=
+  let a := f (fun _ => .reject)
+  let b := f (fun _ => .raises)
+  let c := f (fun _ => .accept .nitf)
+  if a == b && b == c then showDecision a else "D"
+
+def openerVendor (toks : List String) : Option String :=
+  match toks with
+  | [pol, ar, ki, na, l4, hd, bg, xm, pr, pn, dp, dm, dx, h5, m, im, g, ds, sy, la] => do
+    let bits := pol.toList.map (· == '1')
+    let b := fun (i : Nat) => bits.getD i false
+    let p : Policy2 := { siddRefusesGraphics := b 0, nitf20SkipsSymLab := b 1, nitf20SarRaises := b 2, guards := ⟨b 3, b 4, b 5, b 6⟩ }
+    let w : World := { arg := ← opParseArg ar, kind := ← opParseKind ki, name := ← opParseName na, len4 := ← opParseBit l4, head := ← opParseHead hd,
+                       big := ← opParseBit bg, xmlParses := ← opParseBit xm, probe := ← opParseProbe pr, palsarNamed := ← opParseBit pn,
+                       dirProduct := ← opParseBit dp, dirManifest := ← opParseBit dm, dirXml := ← opParseProbe dx, h5py := ← opParseBit h5 }
+    let d : Desc := { magic := ← parseMagic m, images := ← parseListTok parseImg im, graphics := ← g.toNat?,
+                      des := ← parseListTok parseDes ds, symbols := ← sy.toNat?, labels := ← la.toNat? }
+    let vs := opAllVendors.map (fun (n, v) => n ++ "=" ++ opShowOpaque (fun deep => isAV p w d deep v))
+    let es := [("cx", Entry.complex), ("pr", .product), ("ph", .phaseHistory), ("rc", .received), ("ge", .general)].map
+      (fun (n, e) => n ++ "=" ++ opShowOpaque (fun deep => openEntryV p w d deep e))
+    pure (" ".intercalate (vs ++ es ++ ["op=" ++ opShowOpaque (fun deep => openTopV p w d deep)]))
+  | _ => none
+
 def openerStep (toks : List String) : Option String :=
   match toks with
+  | "vendor" :: rest => openerVendor rest
   | ["eval", rg, m, im, g, ds] => do
     let p : Policy := { siddRefusesGraphics := (← rg.toNat?) != 0 }
     let d : Desc := { magic := ← parseMagic m, images := ← parseListTok parseImg im, graphics := ← g.toNat?,
